@@ -1826,19 +1826,74 @@ def r10_ascii_fallback(run):
 # R12 append: "already present" is decided by presence, not by the value's truth
 # ---------------------------------------------------------------------------
 
+def _join_deciders(cfg, f: Func, den, got) -> List[Tuple[ast.AST, str]]:
+    """The conditions under which append_* JOINS the new value onto the stored one, wherever they sit.
+    A join site is a statement that reads the old value of the plain header dict (a subscript load, an augmented
+    assignment of a subscript, or a local bound to `<headers>.get(k)`).  What decides that it runs is read off the
+    CFG, not off the nesting: every T/F edge of a test that dominates the site (an enclosing `if`, the `else` of an
+    inverted test, the fall-through after a guard clause that returns), the test of a conditional expression whose
+    arm holds the read, and a `KeyError`/`LookupError` handler the read's failure is routed to.
+    -> [(expression, how)] in source order, one entry per expression; how is 'test' or 'handler'."""
+    parent = enclosing_map(f.node)
+
+    def reads_old(x) -> bool:
+        if isinstance(x, ast.Subscript) and den(x.value) and isinstance(x.ctx, ast.Load):
+            return True
+        if isinstance(x, ast.AugAssign) and isinstance(x.target, ast.Subscript) and den(x.target.value):
+            return True
+        return isinstance(x, ast.Name) and x.id in got and isinstance(x.ctx, ast.Load)
+
+    out: List[Tuple[ast.AST, str]] = []
+    seen: Set[int] = set()
+
+    def add(e, how):
+        if id(e) not in seen:
+            seen.add(id(e))
+            out.append((e, how))
+
+    for n in sorted(cfg.live_nodes(), key=lambda n: (n.lineno or 0, n.id)):
+        if n.kind != 'stmt':
+            continue
+        reads = [x for x in n.walk() if reads_old(x)]
+        if not reads:
+            continue
+        for (t, _y, _l) in controlling_edges(cfg, n.id):
+            add(cfg.node(t).ast, 'test')
+        for x in reads:
+            cur = x
+            while cur is not n.ast and id(cur) in parent:
+                par = parent[id(cur)]
+                if isinstance(par, ast.IfExp) and par.test is not cur:
+                    add(par.test, 'test')
+                cur = par
+            if not (isinstance(x, ast.Name)):
+                # a direct subscript read of an absent key raises KeyError: a handler for it IS the "absent" branch
+                for (h, l) in cfg.succ[n.id]:
+                    hn = cfg.node(h)
+                    if l == 'exc' and hn.kind == 'handler' and isinstance(hn.ast, ast.ExceptHandler) and hn.ast.type is not None:
+                        types = hn.ast.type.elts if isinstance(hn.ast.type, ast.Tuple) else [hn.ast.type]
+                        if types and all(isinstance(ty, ast.Name) and ty.id in ('KeyError', 'LookupError') for ty in types):
+                            add(hn.ast.type, 'handler')
+    return out
+
+
 def r12_append_presence(run):
     """append_header / append_link join the new value onto an existing one.
     Whether the header exists is a question about the KEY: a header set to the
     empty string exists (the map model holds '' for it), so the join decision
-    must be a membership test or an `is (not) None` test of a `.get()` result,
-    never the truthiness of the stored value.
+    must be a membership test or an `is (not) None` test of a `.get()` result
+    (or the KeyError of the subscript read itself), never the truthiness of the
+    stored value.  The deciding condition is looked up on the CFG (see
+    _join_deciders), so an inverted test, a guard clause with an early return
+    and a conditional expression are read like the nested `if`.
     W: set_header('X-A', ''); append_header('X-A', 'a') -> get_header gives 'a', the model ', a'."""
     p = run.project
-    n = 0
     judged: Set[int] = set()
     for q in ('falcon.response.Response.append_header', 'falcon.response.Response.append_link'):
         f = p.func(q)
         run.use(f)
+        cfg = cfg_of(f, p)
+        run.use_cfg(cfg)
         den, _al = store_exprs(p, f, '_headers')
         # locals bound to <headers>.get(k) / <headers>.get(k, None)
         got = {}
@@ -1846,30 +1901,21 @@ def r12_append_presence(run):
             if isinstance(a, ast.Assign) and len(a.targets) == 1 and isinstance(a.targets[0], ast.Name) and isinstance(a.value, ast.Call) \
                     and isinstance(a.value.func, ast.Attribute) and a.value.func.attr == 'get' and den(a.value.func.value):
                 got[a.targets[0].id] = a
-        for node in walk_self(f.node):
-            if not isinstance(node, ast.If):
-                continue
-            # the branch that joins old and new value: reads the old value of the dict (subscript or the .get local) inside a + / += / f-string
-            joins = False
-            for x in stmts_walk(node.body):
-                if isinstance(x, ast.Subscript) and den(x.value) and isinstance(x.ctx, ast.Load):
-                    joins = True
-                if isinstance(x, ast.AugAssign) and isinstance(x.target, ast.Subscript) and den(x.target.value):
-                    joins = True
-                if isinstance(x, ast.Name) and x.id in got and isinstance(x.ctx, ast.Load):
-                    joins = True
-            if not joins:
-                continue
-            t = node.test
+        n = 0
+        for (t, how) in _join_deciders(cfg, f, den, got):
             ok = None
-            if isinstance(t, ast.Compare) and len(t.ops) == 1:
-                if isinstance(t.ops[0], (ast.In, ast.NotIn)) and den(t.comparators[0]):
+            if how == 'handler':
+                ok = True
+            base = t
+            while isinstance(base, ast.UnaryOp) and isinstance(base.op, ast.Not):
+                base = base.operand
+            if ok is None and isinstance(base, ast.Compare) and len(base.ops) == 1:
+                if isinstance(base.ops[0], (ast.In, ast.NotIn)) and den(base.comparators[0]):
                     ok = True
-                elif isinstance(t.ops[0], (ast.Is, ast.IsNot)) and isinstance(t.left, ast.Name) and t.left.id in got \
-                        and isinstance(t.comparators[0], ast.Constant) and t.comparators[0].value is None:
+                elif isinstance(base.ops[0], (ast.Is, ast.IsNot)) and isinstance(base.left, ast.Name) and base.left.id in got \
+                        and isinstance(base.comparators[0], ast.Constant) and base.comparators[0].value is None:
                     ok = True
             if ok is None:
-                base = t.operand if isinstance(t, ast.UnaryOp) and isinstance(t.op, ast.Not) else t
                 if (isinstance(base, ast.Name) and base.id in got) or (isinstance(base, ast.Subscript) and den(base.value)) \
                         or (isinstance(base, ast.Call) and isinstance(base.func, ast.Attribute) and base.func.attr == 'get' and den(base.func.value)):
                     ok = False
@@ -1880,8 +1926,8 @@ def r12_append_presence(run):
             judged.update(id(x) for x in ast.walk(t))
             run.check(ok, '%s decides "header already present" by the key (membership / is not None), not by the truth of the stored value' % f.name,
                       f, t, runtime_witness="resp.set_header('X-A', ''); resp.append_header('X-A', 'a'): get_header('x-a') == 'a' but the map model holds ', a'")
-    if n < 2:
-        raise AnchorError('presence tests of append_header/append_link not found (%d)' % n)
+        if n < 1:
+            raise AnchorError('%s: no presence test decides the join of old and new value' % f.qual)
     _presence_by_key_readers(run, judged)
 
 
